@@ -147,5 +147,11 @@ def masked_over_record(d):
 
 @known("masked_lazy_carry")
 def _(case, vio):
-    return vio.get("clause") == "C11-closure" and "MaskedArray contains IndexedArray64" in vio.get("message", "").replace("Unmasked", "UnMasked") and \
+    return vio.get("clause") == "C11-closure" and "contains IndexedArray64" in vio.get("message", "") and \
         any(masked_over_record(d) for d in descs_of(case))
+
+
+@known("fillna_unmasked_descends")
+def _(case, vio):
+    kind, op, parts = _parts(vio)
+    return op == "fillna" and kind == "value" and any(any_node(d, lambda n: n["class"] == "UnmaskedArray") for d in descs_of(case))
